@@ -146,10 +146,11 @@ def valid_history(rng, kind, ncalls=30, small=False, allow=("ratio", "ramp", "ch
             if "via" in allow:
                 p["via"] = rng.choice(["into", "into", "slices", "vec_into", "alloc", "vec_alloc"])
                 p["out"] = rng.choice(["next", "next", "max"])
+                # buffers longer than required: by a few frames, or by a lot (whole further chunks)
                 if rng.random() < 0.2:
-                    p["in_extra"] = rng.randrange(1, 5)
+                    p["in_extra"] = rng.choice([1, 2, 3, 4, 64, 1000])
                 if rng.random() < 0.2:
-                    p["out_extra"] = rng.randrange(1, 5)
+                    p["out_extra"] = rng.choice([1, 2, 3, 4, 64, 1000])
             if mask == "vary":
                 p["mask"] = [rng.random() < 0.6 for _ in range(n["ch"])]
                 if not any(p["mask"]) and p.get("via") in ("alloc", "vec_alloc"):
